@@ -148,11 +148,22 @@ def gen(ctx, extra_schemas=None, hot=()):
                 if ws: b = struct.pack("<I", total) + b
                 # fix root offset relative to its own position (always 8+pad from the offset field)
                 base = [b]
-                for bb in base + [b[:k] for k in range(len(b))] + [b[:4 if not ws else 8][:0] + bytes(bytearray(b))]:
-                    lines.append("verify st:%d:%d %s %s 0 %s" % (size, align, "size" if ws else "plain", ident.hex() if ident else "-", bb.hex() if bb else "-")); exp.append(None)
-                for v in (0, 1, 4, 7, 8, len(b), len(b) - size, len(b) - size + 1, 0xffffffff, 0xfffffffc, (2**32 - 4 + 8) & 0xffffffff, 2**32 - (4 if ws else 0) + 8 & 0xffffffff):
-                    m = bytearray(b); o = 4 if ws else 0; m[o:o + 4] = struct.pack("<I", v & 0xffffffff)
-                    lines.append("verify st:%d:%d %s - 0 %s" % (size, align, "size" if ws else "plain", bytes(m).hex())); exp.append(None)
+                # all four entry points (identifier / type hash, plain / size-prefixed), the buffer also at addresses 4 and 8 mod 4096
+                for typed in (False, True):
+                    var = ("typedsize" if ws else "typed") if typed else ("size" if ws else "plain")
+                    for bb in base + [b[:k] for k in range(len(b))]:
+                        lines.append("verify st:%d:%d %s %s 0 %s" % (size, align, var, ident.hex() if ident else "-", bb.hex() if bb else "-")); exp.append(None)
+                    for sh in (4, 8):
+                        lines.append("verify st:%d:%d %s %s %d %s" % (size, align, var, ident.hex() if ident else "-", sh, b.hex())); exp.append(None)
+                    # the struct cut short by 1..4 bytes with the size field adjusted (size-prefixed): the last bytes lie behind the declared size
+                    if ws and size:
+                        for cut in (1, 2, 3, 4):
+                            if cut <= size:
+                                t = bytearray(b[:len(b) - cut]); t[0:4] = struct.pack("<I", len(t) - 4)
+                                lines.append("verify st:%d:%d %s %s 0 %s" % (size, align, var, ident.hex() if ident else "-", bytes(t).hex())); exp.append(None)
+                    for v in (0, 1, 4, 7, 8, len(b), len(b) - size, len(b) - size + 1, len(b) - size - 4, len(b) - size + 4, 0xffffffff, 0xfffffffc, (2**32 - 4 + 8) & 0xffffffff, 2**32 - (4 if ws else 0) + 8 & 0xffffffff):
+                        m = bytearray(b); o = 4 if ws else 0; m[o:o + 4] = struct.pack("<I", v & 0xffffffff)
+                        lines.append("verify st:%d:%d %s - 0 %s" % (size, align, var, bytes(m).hex())); exp.append(None)
     blocks.append(lines); expect_ok.append(exp)
     return blocks, expect_ok
 
